@@ -27,6 +27,7 @@ type Config struct {
 	Deadline   time.Time
 	Samples    int
 	Verbose    bool
+	HangCheck  bool
 }
 
 type FeedItem struct {
@@ -267,6 +268,16 @@ func (ex *Explorer) runPath(solver *Solver, prefix []Decision) (res *PathResult,
 			switch e := r.(type) {
 			case *pathEnd:
 				res.End, res.Msg = e.kind, e.msg
+				if e.kind == "unwind" && ex.cfg.HangCheck {
+					// candidate hang / unbounded recursion: decided by native replay under a timeout
+					id := "unbounded-loop"
+					if strings.HasPrefix(e.msg, "recursion") {
+						id = "unbounded-recursion"
+					} else if strings.HasPrefix(e.msg, "step") {
+						id = "step-limit"
+					}
+					m.reportViolation("hang", id, e.msg, nil)
+				}
 			case *goPanic:
 				// uncaught panic of the interpreted program: an implicit obligation failed
 				res.End = "panic"
